@@ -57,9 +57,18 @@ def check(recipe) -> list[Fail]:
     expected = [chem.snapshot(o, attrib_f32=True, f32=True) for o in objs]
     path = _path("mlib" if kind == "mol" else "clib")
     try:
+        pre = recipe.get("pre")
         if v == 1:
             UKVFile(path, "x", h1=b"ML10Library").close()
-        lib = _lib(kind, path, readonly=False, bufsize=BUFS[recipe["buf"]])
+            lib = _lib(kind, path, readonly=False, bufsize=BUFS[recipe["buf"]])
+        elif pre in ("v1", "v2"):
+            # an existing library (legacy or current, holding a stale record) is overwritten
+            f = UKVFile(path, "x", h1=b"ML10Library" if pre == "v1" else None)
+            f.put(b"stale", b"\x90")
+            f.close()
+            lib = _lib(kind, path, readonly=False, overwrite=True, bufsize=BUFS[recipe["buf"]])
+        else:
+            lib = _lib(kind, path, readonly=False, bufsize=BUFS[recipe["buf"]])
 
         def compare(got_obj, i, route):
             got = chem.snapshot(got_obj)
@@ -160,7 +169,7 @@ def _enc_v1(kind, r, obj):
 
 
 def classify(recipe):
-    labels = [f"bufsize={BUFS[recipe['buf']]}", f"n_objs={len(recipe['objs'])}"]
+    labels = [f"bufsize={BUFS[recipe['buf']]}", f"n_objs={len(recipe['objs'])}"] + ([f"overwrites_existing_{recipe['pre']}_library"] if recipe.get("pre") else [])
     nt = False
     for r in recipe["objs"]:
         na = len(r["atoms"])
@@ -204,6 +213,7 @@ def _case(kind, v, objs):
     return st.fixed_dictionaries({
         "kind": st.just(kind), "v": st.just(v), "objs": st.lists(objs, min_size=1, max_size=3), "keys": _keys,
         "buf": st.integers(0, 3), "read_in_session": st.booleans(),
+        "pre": st.sampled_from([None, None, None, "v1", "v2"]) if v == 2 else st.none(),
     })
 
 
